@@ -12,8 +12,8 @@ import (
 	"strings"
 
 	ipfslog "berty.tech/go-ipfs-log"
-	"berty.tech/go-ipfs-log/entry"
 	"berty.tech/go-ipfs-log/accesscontroller"
+	"berty.tech/go-ipfs-log/entry"
 	"berty.tech/go-ipfs-log/entry/sorting"
 	"berty.tech/go-ipfs-log/iface"
 	"github.com/ipfs/go-cid"
